@@ -98,7 +98,8 @@ class Parser:
             if self.at("=") and not self.at(">", 1):
                 self.eat()
                 rhs = self.expr()
-                self.eat(";")
+                if not self.at("}"):
+                    self.eat(";")
                 stmts.append(("assign", e, rhs))
                 continue
             if self.at(";"):
@@ -125,6 +126,13 @@ class Parser:
             self.no_struct = old
 
     def p_and(self):
+        a = self.p_and1()
+        while self.peek() == ("op", "||"):
+            self.eat()
+            a = ("or", a, self.p_and1())
+        return a
+
+    def p_and1(self):
         a = self.p_cmp()
         while self.peek() == ("op", "&&"):
             self.eat()
@@ -161,6 +169,9 @@ class Parser:
         if self.peek() == ("op", "-"):
             self.eat()
             return ("neg", self.p_un())
+        if self.peek() == ("op", "!"):
+            self.eat()
+            return ("not", self.p_un())
         return self.p_post()
 
     def skip_balanced(self, open_, close):
@@ -238,6 +249,8 @@ class Parser:
             params = []
             if self.eat()[1] == "|":
                 while not self.at("|"):
+                    while self.at("&") or self.at("mut"):
+                        self.eat()
                     params.append(self.eat()[1])
                     if self.at(","):
                         self.eat()
@@ -269,6 +282,8 @@ class Parser:
                 self.skip_balanced("(", ")")
                 if path[-1] in ("panic", "unimplemented", "unreachable", "todo"):
                     return ("panic",)
+                if path[-1] == "format":
+                    return ("fmt",)
                 raise Unavailable(f"macro {name}!")
             if self.at("("):
                 self.eat()
@@ -641,6 +656,10 @@ class Lower:
         """`if c { th } else { el }` with Rust's evaluation order; th / el : indent -> text"""
         if c[0] == "and":
             return self.cond(c[1], lambda i2: self.cond(c[2], th, el, i2), el, ind)
+        if c[0] == "or":
+            return self.cond(c[1], th, lambda i2: self.cond(c[2], th, el, i2), ind)
+        if c[0] == "not":
+            return self.cond(c[1], el, th, ind)
         if c[0] != "cmp":
             raise Unavailable("condition is not a comparison")
         ta = self.type_of(c[2])
@@ -743,6 +762,300 @@ def gen_lower(code, out):
             text, fallback="lowerIndex xs x", depends=[name])
 
 
+# ------------------------------------------------------------------------------------------------ accessors and strategies
+
+
+def find_impl_fn(code, name, after_re=None):
+    """source text starting at the definition of `fn name` (the first one after a match of after_re, if given)"""
+    start = 0
+    if after_re:
+        m = re.search(after_re, code)
+        if not m:
+            raise Unavailable(f"anchor {after_re!r} not found")
+        start = m.start()
+    return code[start:]
+
+
+class Strat:
+    """statement compiler for the accessors of `Interp1D` / `Interp2D` and for `interp_into` of Linear / Bilinear.
+    `arrays`: Rust place (e.g. `self.x`) -> Lean list name;  `calls`: method name -> (generated Lean function, leading Lean arguments)."""
+
+    def __init__(self, arrays, calls, aliases=()):
+        self.arrays, self.calls = arrays, calls
+        self.aliases = set(aliases)
+        self.n = 0
+
+    def fresh(self, p):
+        self.n += 1
+        return f"{p}{self.n}"
+
+    def place(self, e):
+        if e[0] == "field" and e[1] == ("var", "self") and e[2] in self.arrays:
+            return self.arrays[e[2]]
+        return None
+
+    # pure usize / scalar expressions with hoisted reads (as in `Lower.pure`), over named arrays
+    def pure(self, e):
+        k = e[0]
+        if k == "num":
+            return [], e[1]
+        if k == "var":
+            return [], e[1]
+        if k == "method" and e[2] == "len" and self.place(e[1]):
+            return [], f"{self.place(e[1])}.length"
+        if k == "index" and self.place(e[1]):
+            arr = self.place(e[1])
+            eff, i = self.pure(e[2])
+            v = self.fresh("r")
+            eff.append(lambda rest, ind, i=i, v=v, arr=arr: f"match {arr}[{i}]? with\n{ind}| none => .error .panic\n{ind}| some {v} =>\n{ind}  {rest(ind + '  ')}")
+            return eff, v
+        if k == "bin" and e[1] in "+-":
+            ea, a = self.pure(e[2])
+            eb, b = self.pure(e[3])
+            if e[1] == "-":
+                eff = ea + eb
+                eff.append(lambda rest, ind, a=a, b=b: f"if {b} ≤ {a} then\n{ind}  {rest(ind + '  ')}\n{ind}else .error .panic")
+                return eff, f"({a} - {b})"
+            return ea + eb, f"({a} + {b})"
+        if k == "method" and e[2] in ("index_axis", "index_axis_move") and len(e[3]) == 2:
+            # `arr.index_axis(Axis(0), i)`: row i of the (remaining) leading axis
+            ax = e[3][0]
+            if not (ax[0] == "call" and last(ax[1]) == "Axis" and ax[2] == [("num", "0")]):
+                raise Unavailable("index_axis along an axis other than Axis(0)")
+            base = self.place(e[1])
+            if base is None:
+                eff, base = self.pure(e[1])
+            else:
+                eff = []
+            e2, i = self.pure(e[3][1])
+            v = self.fresh("row")
+            eff = eff + e2
+            eff.append(lambda rest, ind, i=i, v=v, base=base: f"match {base}[{i}]? with\n{ind}| none => .error .panic\n{ind}| some {v} =>\n{ind}  {rest(ind + '  ')}")
+            return eff, v
+        if k == "method" and e[1][0] == "var" and (e[1][1] in self.aliases or e[1][1] == "self") and e[2] in self.calls:
+            fn, lead = self.calls[e[2]]
+            effs, args = [], []
+            for a in e[3]:
+                ef, v = self.pure(a)
+                effs += ef
+                args.append(v)
+            v = self.fresh("v")
+            effs.append(lambda rest, ind, fn=fn, lead=lead, args=args, v=v: f"match {fn} {' '.join(lead + args)} with\n{ind}| .error e => .error e\n{ind}| .ok {v} =>\n{ind}  {rest(ind + '  ')}")
+            return effs, v
+        if k == "method" and self.place(e[1]) and e[2] == "get_lower_index" and len(e[3]) == 1:
+            ef, a = self.pure(e[3][0])
+            v = self.fresh("i")
+            ef.append(lambda rest, ind, arr=self.place(e[1]), a=a, v=v: f"match get_lower_index {arr} {a} with\n{ind}| .error e => .error e\n{ind}| .ok {v} =>\n{ind}  {rest(ind + '  ')}")
+            return ef, v
+        if k == "tuple":
+            effs, parts = [], []
+            for it in e[1]:
+                ef, v = self.pure(it)
+                effs += ef
+                parts.append(v)
+            return effs, "(" + ", ".join(parts) + ")"
+        if k == "call" and last(e[1]) == "calc_frac" and len(e[2]) == 3 and all(a[0] == "tuple" and len(a[1]) == 2 for a in e[2][:2]):
+            (p1, p2, x) = e[2]
+            vals = []
+            for it in (p1[1][0], p1[1][1], p2[1][0], p2[1][1], x):
+                ef, v = self.pure(it)
+                if ef:
+                    raise Unavailable("effects inside calc_frac arguments")
+                vals.append(v)
+            return [], "(calcFrac " + " ".join(vals) + ")"
+        raise Unavailable(f"expression {k}" + (f" .{e[2]}" if k == "method" else ""))
+
+    def wrap(self, effs, inner, ind):
+        def go(i, ind):
+            if i == len(effs):
+                return inner(ind)
+            return effs[i](lambda ind2: go(i + 1, ind2), ind)
+        return go(0, ind)
+
+    def cond(self, c, th, el, ind):
+        k = c[0]
+        if k == "and":
+            return self.cond(c[1], lambda i2: self.cond(c[2], th, el, i2), el, ind)
+        if k == "or":
+            return self.cond(c[1], th, lambda i2: self.cond(c[2], th, el, i2), ind)
+        if k == "not":
+            return self.cond(c[1], el, th, ind)
+        if k == "field" and c[1] == ("var", "self") and c[2] == "extrapolate":
+            return f"if ext then\n{ind}  {th(ind + '  ')}\n{ind}else\n{ind}  {el(ind + '  ')}"
+        if k == "cmp":
+            if c[1] not in CMP:
+                raise Unavailable("comparison")
+            ea, a = self.pure(c[2])
+            eb, b = self.pure(c[3])
+            return self.wrap(ea + eb, lambda i2: f"if {CMP[c[1]]} {a} {b} then\n{i2}  {th(i2 + '  ')}\n{i2}else\n{i2}  {el(i2 + '  ')}", ind)
+        if k == "method":
+            eff, v = self.pure(c)
+            return self.wrap(eff, lambda i2: f"if {v} then\n{i2}  {th(i2 + '  ')}\n{i2}else\n{i2}  {el(i2 + '  ')}", ind)
+        raise Unavailable(f"condition {k}")
+
+    def pat(self, p):
+        if p[0] == "var":
+            return p[1]
+        if p[0] == "tuple":
+            return "(" + ", ".join(self.pat(x) for x in p[1]) + ")"
+        raise Unavailable("let pattern")
+
+    def zip_stmt(self, e):
+        """`Zip::from(a).and(b)….and(target).for_each(|&a, &b, …, t| { …; *t = EXPR })` -> (target name, Lean value)"""
+        if not (e[0] == "method" and e[2] == "for_each" and len(e[3]) == 1 and e[3][0][0] == "closure"):
+            return None
+        srcs, cur = [], e[1]
+        while cur[0] == "method" and cur[2] == "and" and len(cur[3]) == 1:
+            srcs.append(cur[3][0])
+            cur = cur[1]
+        if not (cur[0] == "call" and cur[1] == "Zip::from" and len(cur[2]) == 1):
+            return None
+        srcs.append(cur[2][0])
+        srcs.reverse()
+        params, body = e[3][0][1], e[3][0][2]
+        if len(params) != len(srcs) or not all(s[0] == "var" for s in srcs):
+            raise Unavailable("Zip: parts and closure parameters do not match")
+        tgt, tp = srcs[-1][1], params[-1]
+        k = len(srcs) - 1
+        if k not in (1, 2, 3, 4):
+            raise Unavailable("Zip arity")
+        _, stmts, tail = body
+        stmts = list(stmts)
+        if tail is not None:
+            raise Unavailable("Zip closure with a value")
+        if not stmts or stmts[-1][0] != "assign" or stmts[-1][1] != ("var", tp):
+            raise Unavailable("Zip closure does not end by assigning its target element")
+        txt = ""
+        for s in stmts[:-1]:
+            if s[0] != "let" or s[1][0] != "var":
+                raise Unavailable("statement in Zip closure")
+            ef, v = self.pure(s[2])
+            if ef:
+                raise Unavailable("effects in Zip closure")
+            txt += f"let {s[1][1]} := {v}; "
+        ef, v = self.pure(stmts[-1][2])
+        if ef:
+            raise Unavailable("effects in Zip closure")
+        lean = f"Lanes.map{k} (fun {' '.join(params[:-1])} => {txt}{v}) {' '.join(s[1] for s in srcs[:-1])}"
+        return tgt, lean
+
+    def stmts(self, ss, tail, ind, result):
+        """result(e) : text for the value of the function given the final expression"""
+        if not ss:
+            if tail is None:
+                raise Unavailable("function falls off its end")
+            return result(tail, ind)
+        s, rest = ss[0], ss[1:]
+        nxt = lambda i2: self.stmts(rest, tail, i2, result)
+        if s[0] == "let" and s[2][0] == "var" and s[2][1] in ("interpolator",) and s[1][0] == "var":
+            self.aliases.add(s[1][1])
+            return nxt(ind)
+        if s[0] == "let":
+            eff, v = self.pure(s[2])
+            return self.wrap(eff, lambda i2: f"let {self.pat(s[1])} := {v}\n{i2}" + nxt(i2), ind)
+        if s[0] == "return":
+            return result(s[1], ind)
+        if s[0] == "expr" and s[1][0] == "if":
+            _, c, th, el = s[1]
+            th_f = lambda i2: self.stmts(th[1], th[2], i2, result) if not (th[2] is None and not th[1]) else nxt(i2)
+            el_f = (lambda i2: self.stmts(el[1], el[2], i2, result)) if el is not None else nxt
+            return self.cond(c, th_f, el_f, ind)
+        if s[0] == "expr":
+            z = self.zip_stmt(s[1])
+            if z:
+                tgt, lean = z
+                return f"let {tgt} := {lean}\n{ind}" + nxt(ind)
+        raise Unavailable(f"statement {s[0]}")
+
+
+def strat_result(target):
+    def result(e, ind):
+        if e[0] == "call" and last(e[1]) == "Ok" and e[2] == [("tuple", [])]:
+            return f".ok {target}"
+        if e[0] == "call" and last(e[1]) == "Err" and e[2] and e[2][0][0] == "call" and last(e[2][0][1]) == "OutOfBounds":
+            return ".error .outOfBounds"
+        raise Unavailable("result expression")
+    return result
+
+
+def bool_fn(S, b):
+    """a `-> bool` accessor whose body is one Boolean expression"""
+    _, stmts, tail = b
+    if stmts or tail is None:
+        raise Unavailable("accessor body is not a single expression")
+    return S.cond(tail, lambda i: ".ok true", lambda i: ".ok false", "  ")
+
+
+def value_fn(S, b):
+    """an accessor returning a value built from reads"""
+    def result(e, ind):
+        eff, v = S.pure(e)
+        return S.wrap(eff, lambda i2: f".ok {v}", ind)
+    return S.stmts(b[1], b[2], "  ", result)
+
+
+def gen_strategies(src_dir, out, all_unavailable=False):
+    def rd(f):
+        try:
+            return strip_comments(open(os.path.join(src_dir, f)).read())
+        except OSError as e:
+            return None
+
+    def add(name, sig, body, fallback, depends=()):
+        try:
+            if all_unavailable:
+                raise Unavailable("translator output was rejected by Lean")
+            txt = body()
+            out.add(name, sig, txt, fallback=fallback, depends=depends)
+            out.status[name] = "translated"
+        except Unavailable as e:
+            out.defs.append({"name": name, "sig": sig, "body": None, "fallback": fallback, "suffix": "", "depends": []})
+            out.status[name] = f"unavailable: {e}"
+        except (TypeError, AttributeError) as e:          # source file missing
+            out.defs.append({"name": name, "sig": sig, "body": None, "fallback": fallback, "suffix": "", "depends": []})
+            out.status[name] = f"unavailable: {e}"
+
+    sig1 = "{α : Type} [Cmp α] [Add α] [Sub α] [Mul α] [Div α] [NatCast α] [ToUsize α]"
+    # ---- Interp1D accessors
+    c1 = rd("interp1d/mod.rs")
+    A1 = {"x": "xs", "data": "ys"}
+    add("acc1_is_in_range", "{α : Type} [Cmp α] (xs : List α) (x : α) : Except Fault Bool",
+            lambda: bool_fn(Strat(A1, {}), parse_fn(c1, r"pub\s+fn\s+is_in_range\s*\(")), fallback="isInRange xs x")
+    add("acc1_get_index_left_of", sig1 + " (xs : List α) (x : α) : Except Fault Nat",
+            lambda: value_fn(Strat(A1, {}), parse_fn(c1, r"pub\s+fn\s+get_index_left_of\s*\(")), fallback="lowerIndex xs x", depends=["get_lower_index"])
+    add("acc1_index_point", "{α V : Type} (xs : List α) (ys : List V) (index : Nat) : Except Fault (α × V)",
+            lambda: value_fn(Strat(A1, {}), parse_fn(c1, r"pub\s+fn\s+index_point\s*\(")), fallback="(rd xs index).bind fun a => (rd ys index).bind fun v => .ok (a, v)")
+    # ---- Linear::interp_into
+    lin = rd("interp1d/strategies/linear.rs")
+    calls1 = {"is_in_range": ("acc1_is_in_range", ["xs"]), "get_index_left_of": ("acc1_get_index_left_of", ["xs"]),
+              "index_point": ("acc1_index_point", ["xs", "ys"])}
+    add("linear_interp_into", "{α V : Type} [Cmp α] [Add α] [Sub α] [Mul α] [Div α] [NatCast α] [ToUsize α] [Lanes α V] (ext : Bool) (xs : List α) (ys : List V) (x : α) : Except Fault V",
+            lambda: (lambda b: Strat({}, calls1, aliases=["interpolator"]).stmts(b[1], b[2], "  ", strat_result("target")))(parse_fn(lin, r"fn\s+interp_into\s*\(")),
+            fallback="linearInterp ext xs ys x",
+            depends=["acc1_is_in_range", "acc1_get_index_left_of", "acc1_index_point"])
+    # ---- Interp2D accessors
+    c2 = rd("interp2d/mod.rs")
+    A2 = {"x": "xs", "y": "ys", "data": "zs"}
+    add("acc2_is_in_x_range", "{α : Type} [Cmp α] (xs : List α) (x : α) : Except Fault Bool",
+            lambda: bool_fn(Strat(A2, {}), parse_fn(c2, r"pub\s+fn\s+is_in_x_range\s*\(")), fallback="isInRange xs x")
+    add("acc2_is_in_y_range", "{α : Type} [Cmp α] (ys : List α) (y : α) : Except Fault Bool",
+            lambda: bool_fn(Strat(A2, {}), parse_fn(c2, r"pub\s+fn\s+is_in_y_range\s*\(")), fallback="isInRange ys y")
+    add("acc2_get_index_left_of", sig1 + " (xs ys : List α) (x y : α) : Except Fault (Nat × Nat)",
+            lambda: value_fn(Strat(A2, {}), parse_fn(c2, r"pub\s+fn\s+get_index_left_of\s*\(")),
+            fallback="(lowerIndex xs x).bind fun i => (lowerIndex ys y).bind fun j => .ok (i, j)", depends=["get_lower_index"])
+    add("acc2_index_point", "{α V : Type} (xs ys : List α) (zs : List (List V)) (x_idx y_idx : Nat) : Except Fault (α × α × V)",
+            lambda: value_fn(Strat(A2, {}), parse_fn(c2, r"pub\s+fn\s+index_point\s*\(")),
+            fallback="(rd xs x_idx).bind fun a => (rd ys y_idx).bind fun b => (rd zs x_idx).bind fun r => (rd r y_idx).bind fun v => .ok (a, b, v)")
+    # ---- Bilinear::interp_into
+    bil = rd("interp2d/strategies/bilinear.rs")
+    calls2 = {"is_in_x_range": ("acc2_is_in_x_range", ["xs"]), "is_in_y_range": ("acc2_is_in_y_range", ["ys"]),
+              "get_index_left_of": ("acc2_get_index_left_of", ["xs", "ys"]), "index_point": ("acc2_index_point", ["xs", "ys", "zs"])}
+    add("bilinear_interp_into", "{α V : Type} [Cmp α] [Add α] [Sub α] [Mul α] [Div α] [NatCast α] [ToUsize α] [Lanes α V] (ext : Bool) (xs ys : List α) (zs : List (List V)) (x y : α) : Except Fault V",
+            lambda: (lambda b: Strat({}, calls2, aliases=["interpolator"]).stmts(b[1], b[2], "  ", strat_result("target")))(parse_fn(bil, r"fn\s+interp_into\s*\(")),
+            fallback="bilinearInterp ext xs ys zs x y",
+            depends=["acc2_is_in_x_range", "acc2_is_in_y_range", "acc2_get_index_left_of", "acc2_index_point"])
+
+
 # ------------------------------------------------------------------------------------------------ output
 
 
@@ -794,6 +1107,7 @@ def translate(src_dir, all_unavailable=False):
             else:
                 out.defs.append({"name": name, "sig": sig, "body": None, "fallback": fb, "suffix": "", "depends": []})
                 out.status[name] = f"unavailable: {e}"
+    gen_strategies(src_dir, out, all_unavailable)
     return out
 
 
@@ -801,7 +1115,7 @@ def emit(out):
     L = ["/-", "GENERATED by tools/translate_control.py from /repo/src/vector_extensions.rs on every run — do not edit.",
          "The control flow of `MonotonicState::{start, update, short_circuit, finish}`, `monotonic_prop` and `get_lower_index`,",
          "statement by statement, as it is in the source now.  `NdInterp/Props/FormulaTie/Ctl.lean` proves each function equal to the",
-         "hand-written model for every input.", "-/", "import NdInterp.Model.Vector", "",
+         "hand-written model for every input.", "-/", "import NdInterp.Model.Linear", "",
          "set_option linter.unusedVariables false", "", "namespace NdInterp.GenCtl", "open NdInterp", ""]
     for d in out.defs:
         ok = d["body"] is not None
